@@ -20,7 +20,7 @@ impl FragmentGenerator for DropImplGenerator {
         for datum in &record_spec.data {
             drop_fn.line(format!(
                 "let _{}: {} = unsafe {{ self.data.read({}) }};",
-                datum.name(),
+                datum.name().trim_start_matches("r#"),
                 datum.details().type_name(),
                 datum.details().offset(),
             ));
